@@ -812,3 +812,266 @@ Proof.
   lia.
 Qed.
 End Mounted.
+
+(* ------------------------------------------------------------------ the prologue reads again *)
+
+(* reads of node n from the source in one Copy call: prologue + copyGraph *)
+Definition reads_in_call (n : node) (pro : list node) (tr : list event) : nat :=
+  count_occ Nat.eq_dec pro n + cnt (is_fetch n) tr.
+
+Definition tr_blobroot : list event :=
+  [ExB 0; ExE 0 false; Cb CPre 0; SFB 0; SFE 0; PuB 0 false; PuE 0 false POk; SFC 0;
+   TagB 0; TagE 0; Cb CPost 0; Ret true].
+
+(* "no blob is fetched from the source more than once" fails for the whole call: a blob root
+   resolved through a ReferenceFetcher is opened in the prologue and fetched again by copyNode *)
+Lemma prologue_read_twice_refuted :
+  exists g c d0 tr st pro n,
+    accepts g c d0 tr = Some st /\ returned st = Some true /\
+    pro = prologue_reads true (c_root c) None /\ g_ismf g n = false /\
+    reads_in_call n pro tr = 2.
+Proof.
+  exists g_blob, (mkCfg 3 MTagger 0 false true [] []), [], tr_blobroot. eexists.
+  exists [0], 0. split; [vm_compute; reflexivity|]. repeat split.
+Qed.
+
+(* within copyGraph the bound is 1, so a call reads a node at most 1 + (its prologue reads) times *)
+Lemma reads_in_call_bound g c d0 tr st n pro :
+  accepts g c d0 tr = Some st -> reads_in_call n pro tr <= count_occ Nat.eq_dec pro n + 1.
+Proof.
+  intro H. unfold reads_in_call. pose proof (fetch_once g c n tr _ _ H). lia.
+Qed.
+
+(* ------------------------------------------------------------------ the in-flight counters are the trace's *)
+
+Definition is_src_open (e : event) : bool := match e with SFB _ => true | _ => false end.
+Definition is_src_close (e : event) : bool := match e with SFC _ => true | _ => false end.
+Definition is_dst_open (e : event) : bool :=
+  match e with ExB _ | PuB _ _ | TagB _ | MtB _ => true | _ => false end.
+Definition is_dst_close (e : event) : bool :=
+  match e with ExE _ _ | PuE _ _ _ | TagE _ | MtE _ _ => true | _ => false end.
+Definition is_cbfail (e : event) : bool := match e with CbFail _ _ => true | _ => false end.
+
+Definition b2n (b : bool) : nat := if b then 1 else 0.
+
+Lemma count_upd_eq (f : phase -> bool) (phs : node -> phase) n p l : NoDup l -> In n l ->
+  length (filter (fun m => f (upd phs n p m)) l) + b2n (f (phs n)) =
+  length (filter (fun m => f (phs m)) l) + b2n (f p).
+Proof.
+  induction l as [|a l IH]; intros ND Hin; [contradiction|].
+  inversion ND as [|? ? Hna ND']; subst. simpl.
+  destruct (Nat.eq_dec a n) as [->|Hne].
+  - rewrite upd_same.
+    assert (E : filter (fun m => f (upd phs n p m)) l = filter (fun m => f (phs m)) l).
+    { apply filter_ext_in. intros m Hm. rewrite upd_other; auto. intro; subst; contradiction. }
+    rewrite E. destruct (f p), (f (phs n)); simpl; rewrite ?Nat.add_0_r, ?Nat.add_1_r; auto.
+  - rewrite upd_other by assumption. destruct Hin as [->|Hin]; [contradiction|].
+    specialize (IH ND' Hin). destruct (f (phs a)); simpl; unfold node in *; lia.
+Qed.
+
+Section Gauges.
+Variable g : graph.
+Variable c : cfg.
+Variable d0 : list node.
+
+Ltac gauge_case f :=
+  match goal with
+  | |- context [filter (fun m => f (upd ?phs ?n ?p m)) ?l] =>
+    let CU := fresh "CU" in
+    assert (CU : length (filter (fun m => f (upd phs n p m)) l) + b2n (f (phs n)) =
+                 length (filter (fun m => f (phs m)) l) + b2n (f p));
+    [apply count_upd_eq; [apply seq_NoDup | apply in_seq; simpl; lia] |]
+  end.
+
+Lemma src_gauge_step st e st' : Inv g c d0 st -> step g c st e = Some st' ->
+  inflight_src g st' + b2n (is_src_close e) = inflight_src g st + b2n (is_src_open e).
+Proof.
+  intros I H. pose proof (i_bound g c d0 st I) as IB.
+  unfold inflight_src, count.
+  step_inv H; simp_st; cbn [b2n is_src_close is_src_open]; unfold node in *; try lia;
+  (assert (Hn : n < g_n g) by first [ now apply Nat.ltb_lt | apply IB; old_ph; discriminate ]);
+  gauge_case src_ph;
+  repeat match goal with Hp : ph st _ = _ |- _ => try rewrite Hp in CU; clear Hp end;
+  unfold after_push, after_tag in *;
+  repeat match type of CU with context [if ?x then _ else _] => destruct x end;
+  simpl in CU; unfold node in *; lia.
+Qed.
+
+Lemma dst_gauge_step st e st' : Inv g c d0 st -> step g c st e = Some st' ->
+  inflight_dst g st' + b2n (is_dst_close e) <= inflight_dst g st + b2n (is_dst_open e) /\
+  (is_cbfail e = false ->
+   inflight_dst g st' + b2n (is_dst_close e) = inflight_dst g st + b2n (is_dst_open e)).
+Proof.
+  intros I H. pose proof (i_bound g c d0 st I) as IB.
+  unfold inflight_dst, count.
+  step_inv H; simp_st; cbn [b2n is_dst_close is_dst_open is_cbfail]; unfold node in *; try (split; [lia | intros _; lia]);
+  (assert (Hn : n < g_n g) by first [ now apply Nat.ltb_lt | apply IB; old_ph; discriminate ]);
+  gauge_case dst_ph;
+  repeat match goal with Hp : ph st _ = _ |- _ => try rewrite Hp in CU; clear Hp end;
+  unfold after_push, after_tag in *;
+  repeat match type of CU with context [if ?x then _ else _] => destruct x end;
+  simpl in CU; unfold node in *; (split; [lia | intro Hc; try discriminate Hc; lia]).
+Qed.
+
+Lemma gauges_run tr : forall st st', Inv g c d0 st -> run g c st tr = Some st' ->
+  inflight_src g st' + cnt is_src_close tr = inflight_src g st + cnt is_src_open tr /\
+  inflight_dst g st' + cnt is_dst_close tr <= inflight_dst g st + cnt is_dst_open tr /\
+  (cnt is_cbfail tr = 0 ->
+   inflight_dst g st' + cnt is_dst_close tr = inflight_dst g st + cnt is_dst_open tr).
+Proof.
+  induction tr as [|e tr IH]; simpl; intros st st' I H.
+  - injection H as <-. unfold cnt; simpl. repeat split; lia.
+  - destruct (step g c st e) as [s1|] eqn:E; [|discriminate].
+    pose proof (step_preserves_inv g c d0 _ _ _ I E) as I1.
+    destruct (IH s1 st' I1 H) as [A [B C]].
+    pose proof (src_gauge_step st e s1 I E) as S.
+    destruct (dst_gauge_step st e s1 I E) as [D1 D2].
+    unfold cnt in *. simpl.
+    destruct (is_src_close e), (is_src_open e), (is_dst_close e), (is_dst_open e), (is_cbfail e);
+      simpl in *; repeat split; try lia;
+      intro Z; try discriminate Z; try (specialize (C Z)); try (specialize (D2 eq_refl)); lia.
+Qed.
+
+Lemma init_gauges : inflight_src g (init c d0) = 0 /\ inflight_dst g (init c d0) = 0.
+Proof.
+  unfold inflight_src, inflight_dst, count. simpl. split; induction (seq 0 (g_n g)); simpl; auto.
+Qed.
+
+(* the bound, stated on the trace: at every prefix of an accepted trace the number of source reads
+   begun and not yet closed is at most K; the same for destination operations (when a callback
+   failed inside a Mount, the model stops counting that Mount: only the inequality remains) *)
+Lemma inflight_trace_lemma tr1 tr2 st :
+  accepts g c d0 (tr1 ++ tr2) = Some st ->
+  cnt is_src_open tr1 - cnt is_src_close tr1 <= c_K c /\
+  (cnt is_cbfail tr1 = 0 -> cnt is_dst_open tr1 - cnt is_dst_close tr1 <= c_K c).
+Proof.
+  intro Ha. destruct (inflight_prefix_lemma g c d0 tr1 tr2 st Ha) as [st1 [H1 [B1 B2]]].
+  unfold accepts in H1.
+  destruct (gauges_run tr1 _ _ (init_inv g c d0) H1) as [A [_ C]].
+  destruct init_gauges as [Z1 Z2]. rewrite Z1 in A. rewrite Z2 in C.
+  split; [lia|]. intro Z. specialize (C Z). lia.
+Qed.
+End Gauges.
+
+(* ------------------------------------------------------------------ PreCopy precedes the BEGIN of the push; mounted nodes *)
+
+Section PreBeforePush.
+Variable g : graph.
+Variable c : cfg.
+Variable d0 : list node.
+
+Lemma step_pushbegin_ph st n ref st' : step g c st (PuB n ref) = Some st' ->
+  exists sk, ph st n = Rdy sk \/ ph st n = F2 sk.
+Proof.
+  unfold step. destruct (returned st); [discriminate|].
+  destruct (negb (eqb ref (root_refpush c n))); [discriminate|].
+  destruct (ph st n) eqn:Hp; try discriminate; eauto.
+Qed.
+
+(* a node that is not already in the destination is pushed only after its PreCopy (the push without
+   PreCopy is the re-push with the reference of an already-present / mounted ReferencePusher root) *)
+Lemma pre_before_push_begin tr1 n ref tr2 st :
+  accepts g c d0 (tr1 ++ PuB n ref :: tr2) = Some st ->
+  exists st1, accepts g c d0 tr1 = Some st1 /\
+              (has g (dst st1) n = false -> In (Cb CPre n) tr1).
+Proof.
+  intro Ha. unfold accepts in Ha. apply run_app in Ha as [st1 [H1 H2]].
+  exists st1. split; [exact H1|]. intro Hh.
+  pose proof (run_inv g c d0 tr1 _ _ (init_inv g c d0) H1) as I1.
+  pose proof (hinv_run g c d0 tr1 [] _ _ (init_inv g c d0) (hinv_init c d0) H1) as HI. simpl in HI.
+  simpl in H2. destruct (step g c st1 (PuB n ref)) as [s2|] eqn:E; [|discriminate].
+  destruct (step_pushbegin_ph st1 n ref s2 E) as [sk [Hp|Hp]]; destruct sk.
+  - assert (has g (dst st1) n = true) by (apply (i_present g c d0 st1 I1); rewrite Hp; reflexivity). congruence.
+  - apply (h_pre tr1 st1 HI). rewrite Hp. reflexivity.
+  - assert (has g (dst st1) n = true) by (apply (i_present g c d0 st1 I1); rewrite Hp; reflexivity). congruence.
+  - apply (h_pre tr1 st1 HI). rewrite Hp. reflexivity.
+Qed.
+
+(* PreCopy seen => the node is past the phases from which it could be mounted *)
+Definition PreInv (h : list event) (st : state) : Prop :=
+  forall n, In (Cb CPre n) h -> prepast_ph (ph st n) = true.
+
+Lemma step_cbpre_prepast st n st' : step g c st (Cb CPre n) = Some st' -> prepast_ph (ph st' n) = true.
+Proof.
+  unfold step, cb_next. destruct (returned st); [discriminate|].
+  destruct (ph st n); try discriminate;
+  repeat match goal with |- context [if ?x then _ else _] => destruct x end; try discriminate;
+  intro H; injection H as <-; simpl; rewrite upd_same; reflexivity.
+Qed.
+
+Lemma preinv_run tr : forall h st st', PreInv h st -> run g c st tr = Some st' -> PreInv (h ++ tr) st'.
+Proof.
+  induction tr as [|e tr IH]; simpl; intros h st st' P H.
+  - injection H as <-. now rewrite app_nil_r.
+  - destruct (step g c st e) as [s1|] eqn:E; [|discriminate].
+    replace (h ++ e :: tr) with ((h ++ [e]) ++ tr) by (rewrite <- app_assoc; reflexivity).
+    apply (IH (h ++ [e]) s1 st'); [|exact H].
+    intros n Hn. apply in_app_iff in Hn as [Hn|[Hn|[]]].
+    + eapply prepast_closed; eauto.
+    + subst e. eapply step_cbpre_prepast; eauto.
+Qed.
+
+Lemma step_mounted_from st n st' : step g c st (MtE n MMounted) = Some st' -> ph st n = Mounting.
+Proof.
+  unfold step. destruct (returned st); [discriminate|].
+  destruct (ph st n); try discriminate; auto.
+Qed.
+
+Lemma step_cbpre_from st n st' : step g c st (Cb CPre n) = Some st' -> mounted_ph (ph st n) = false.
+Proof.
+  unfold step, cb_next. destruct (returned st); [discriminate|].
+  destruct (ph st n); try discriminate; auto.
+Qed.
+
+Lemma step_cbpost_from st n st' : step g c st (Cb CPost n) = Some st' -> mounted_ph (ph st n) = false.
+Proof.
+  unfold step, cb_next. destruct (returned st); [discriminate|].
+  destruct (ph st n); try discriminate; auto.
+Qed.
+
+(* a mounted node has no PreCopy and no PostCopy: neither before Mount reported "mounted" ... *)
+Lemma mounted_no_pre_post_before tr1 n tr2 st :
+  accepts g c d0 (tr1 ++ MtE n MMounted :: tr2) = Some st ->
+  ~ In (Cb CPre n) tr1 /\ ~ In (Cb CPost n) tr1.
+Proof.
+  intro Ha. unfold accepts in Ha. apply run_app in Ha as [st1 [H1 H2]].
+  simpl in H2. destruct (step g c st1 (MtE n MMounted)) as [s2|] eqn:E; [|discriminate].
+  pose proof (step_mounted_from st1 n s2 E) as Hp.
+  split; intro Hc.
+  - assert (P : PreInv tr1 st1) by (apply (preinv_run tr1 [] (init c d0) st1); [intros m []|exact H1]).
+    specialize (P n Hc). rewrite Hp in P. discriminate.
+  - assert (P : PInv tr1 st1) by (apply (pinv_run g c tr1 [] (init c d0) st1); [intros m []|exact H1]).
+    specialize (P n Hc). rewrite Hp in P. discriminate.
+Qed.
+
+(* ... nor after *)
+Lemma no_pre_post_after_mounted tr : forall st st' n,
+  mounted_ph (ph st n) = true -> run g c st tr = Some st' ->
+  ~ In (Cb CPre n) tr /\ ~ In (Cb CPost n) tr.
+Proof.
+  induction tr as [|e tr IH]; simpl; intros st st' n Hm H; [tauto|].
+  destruct (step g c st e) as [s1|] eqn:E; [|discriminate].
+  assert (Hm1 : mounted_ph (ph s1 n) = true) by (eapply mounted_closed; eauto).
+  destruct (IH s1 st' n Hm1 H) as [A B].
+  split; intros [Hc|Hc]; try tauto; subst e.
+  - rewrite (step_cbpre_from st n s1 E) in Hm. discriminate.
+  - rewrite (step_cbpost_from st n s1 E) in Hm. discriminate.
+Qed.
+
+Lemma mounted_no_pre_post tr st n :
+  accepts g c d0 tr = Some st -> In (MtE n MMounted) tr ->
+  ~ In (Cb CPre n) tr /\ ~ In (Cb CPost n) tr.
+Proof.
+  intros Ha Hin. apply in_split in Hin as [tr1 [tr2 ->]].
+  destruct (mounted_no_pre_post_before tr1 n tr2 st Ha) as [B1 B2].
+  unfold accepts in Ha. apply run_app in Ha as [st1 [H1 H2]].
+  simpl in H2. destruct (step g c st1 (MtE n MMounted)) as [s2|] eqn:E; [|discriminate].
+  assert (Hm : mounted_ph (ph s2 n) = true) by (rewrite (step_mounted g c st1 n s2 E); reflexivity).
+  destruct (no_pre_post_after_mounted tr2 s2 st n Hm H2) as [A1 A2].
+  assert (N1 : ~ In (Cb CPre n) (tr1 ++ MtE n MMounted :: tr2)).
+  { intro Hc. apply in_app_iff in Hc as [Hc|[Hc|Hc]]; [tauto|discriminate|tauto]. }
+  assert (N2 : ~ In (Cb CPost n) (tr1 ++ MtE n MMounted :: tr2)).
+  { intro Hc. apply in_app_iff in Hc as [Hc|[Hc|Hc]]; [tauto|discriminate|tauto]. }
+  split; assumption.
+Qed.
+End PreBeforePush.
